@@ -38,6 +38,10 @@ type C09Case struct {
 	// RootLink: -serve-files-from names the directory or file through a
 	// symbolic link placed outside the tree (releases/current -> ...).
 	RootLink bool `json:"root_link,omitempty"`
+	// GoneAt: before request number GoneAt (1-based; 0 = never) the served
+	// directory or file is renamed away.  Nothing can be served any more, but
+	// every file request is still reported.
+	GoneAt int `json:"gone_at,omitempty"`
 }
 
 // strictShell matches request targets that the mux certainly routes to a shell
@@ -187,6 +191,7 @@ func runC09(t testing.TB, c C09Case) (key, what string, st c09Stats) {
 		single = ti.contents[name]
 		cfg.FDir = filepath.Join(ti.root, name)
 	}
+	served := cfg.FDir // the real directory or file, whatever name the server was given
 	if c.RootLink && cfg.FDir != "" {
 		ln := filepath.Join(dir, "served-through-link")
 		if err := os.Symlink(cfg.FDir, ln); err != nil {
@@ -209,8 +214,17 @@ func runC09(t testing.TB, c C09Case) (key, what string, st c09Stats) {
 		}
 		return false
 	}
+	gone := false
 	for i, rq := range c.Reqs {
 		desc := fmt.Sprintf("request %d %q", i, clip(string(rq.raw()), 200))
+		if c.GoneAt == i+1 && served != "" {
+			if err := os.Rename(served, served+".gone"); err != nil {
+				panic(err)
+			}
+			gone = true
+			desc += " (after the served " + c.Mode + " was renamed away)"
+			st.classes["request-after-served-root-vanished"]++
+		}
 		cur := rq
 		var res *Resp
 		streaming := false
@@ -322,7 +336,7 @@ func runC09(t testing.TB, c C09Case) (key, what string, st c09Stats) {
 					reported = true
 				}
 			}
-			if reported {
+			if reported && !gone {
 				switch res.Status {
 				case 200, 206, 304, 412, 416:
 				default:
@@ -460,6 +474,7 @@ func genC09() *rapid.Generator[C09Case] {
 	return rapid.Custom(func(t *rapid.T) C09Case {
 		c := C09Case{Mode: rapid.SampledFrom([]string{"dir", "dir", "dir", "file", "unset"}).Draw(t, "mode"), Probe: rapid.IntRange(0, 3).Draw(t, "probe") == 0}
 		c.RootLink = c.Mode != "unset" && rapid.IntRange(0, 3).Draw(t, "rootlink") == 0
+		goneDraw := rapid.IntRange(0, 5).Draw(t, "gone")
 		if c.Probe {
 			c.ProbeMethod = rapid.SampledFrom([]string{"", "", "POST", "PUT", "DELETE", "PATCH", "PROPFIND", "OPTIONS"}).Draw(t, "probemethod")
 		}
@@ -501,6 +516,9 @@ func genC09() *rapid.Generator[C09Case] {
 				r.Extra = "If-Modified-Since: " + rapid.SampledFrom([]string{"Mon, 02 Jan 2040 15:04:05 GMT", "Mon, 02 Jan 2006 15:04:05 GMT"}).Draw(t, "ims") + "\r\n"
 			}
 			c.Reqs = append(c.Reqs, r)
+		}
+		if goneDraw == 0 && c.Mode != "unset" {
+			c.GoneAt = rapid.IntRange(1, len(c.Reqs)).Draw(t, "goneat")
 		}
 		return c
 	})
